@@ -18,7 +18,7 @@ prefix notation (strings that may contain spaces are `=` followed by dot-separat
   query   := "P" dummyDoc(0|1) expr
   expr    := "h" | "r" | "s" expr axis test expr expr | "t" | "p" n | "l" | "le" n | "ex" expr
            | "cg" expr n | "no" expr | "an" expr expr | "or" expr expr
-  axis    := c|d|ds|s|a     test := "n" name | "*" | "nd"
+  axis    := c|d|ds|s|a|pa|an|fs|ps     test := "n" name | "*" | "nd"
 
 Answer: `;`-separated records
   n<idx>|T=<type name or ~>|E=<0/1 xsd_element set>|C=<content kind x,m,e,z,s,u>|M=<model typed value>|S=<spec typed value>|K=<flags>|IM=<bits>|IS=<bits>
@@ -191,6 +191,10 @@ def pAxis : P Axis
   | "ds" :: r => some (.descOrSelf, r)
   | "s" :: r => some (.self, r)
   | "a" :: r => some (.attrib, r)
+  | "pa" :: r => some (.parent, r)
+  | "an" :: r => some (.ancestor, r)
+  | "fs" :: r => some (.follSibling, r)
+  | "ps" :: r => some (.precSibling, r)
   | _ => none
 
 def pTest : P NTest
@@ -260,9 +264,7 @@ def flagsFor (t : Option SType) (text : String) : String :=
   | none => ""
   | some T =>
     ",".intercalate ((if unionMemberSkipped T then ["F20h"] else []) ++
-      (if facetDecides T text then ["F20j"] else []) ++
-      (if listOfUnionMixed T text then ["F20g"] else []) ++
-      (if pyOnlyLexical T text then ["F20i"] else []))
+      (if facetDecides T text then ["F20j"] else []))
 
 def showOps (vs : Option (List Atom)) : String :=
   match vs with
@@ -273,14 +275,17 @@ def tvOpt : TV → Option (List Atom)
   | .ok vs => some vs
   | _ => none
 
-/-- `element(*, T?)` on a nilled element: the code (`_xpath2_operators.py:737-739`) accepts any `T`;
-the specification requires the declared type to be `T` or derived from it -/
+/-- `element(*, T?)` on a nilled element of an ATOMIC simple(-content) type: the code
+(`_xpath2_operators.py`, fix F20n) tests the prototype values of the node's type against `T`; the
+specification requires the declared type to be `T` or derived from it -/
 def nilBits (nil : Bool) (ct : Option SType) : String × String :=
-  if !nil then ("~", "~") else
-  (bits (B.all.map fun _ => true),
-   match ct with
-   | some t => bits (B.all.map fun T => derivesFromB t T)
-   | none => "~")
+  match nil, ct with
+  | true, some t =>
+    if (atomicBase? t).isSome then
+      (bits (B.all.map fun T => t.protos.any fun b => (classOf b).derives T),
+       bits (B.all.map fun T => derivesFromB t T))
+    else ("~", "~")
+  | _, _ => ("~", "~")
 
 def kindChar (s : Schema) (a : Ann) : String :=
   match a.xsdType with
@@ -357,7 +362,7 @@ def answer (line : String) : String :=
               let c := s!"c|{if !fv || sameAnn s ann (applyF s none t) then 1 else 0}|{if allTypedB ann then 1 else 0}|{if absd then 1 else 0}"
               let ps := qs.zipIdx.map fun ((dummy, e), k) =>
                 let m := select (Cfg.typed s dummy) (!dummy) ann e
-                let sp := select Cfg.plain (!dummy) t e
+                let sp := select (Cfg.plain dummy) (!dummy) t e
                 let fl := ",".intercalate ((if dummy && starAtDoc false e then ["F20b"] else []) ++
                   (if absd then ["F20d"] else []))
                 s!"p{k}|M={showIdx m}|S={showIdx sp}|K={fl}"
